@@ -296,6 +296,7 @@ func c05Run(c *core.Case, o *core.Outcome) {
 	var deadlineRem time.Duration
 	var deadlineOK, triggerEntered bool
 	var triggerReturnedBeforeCtxDone atomic.Bool
+	var trigRet atomic.Int64 // log time at which the trigger returned: the completion wait starts after it
 	var trigCtx context.Context
 	hooks := &engine.Hooks{
 		OnTrigger: func(ctx context.Context) {
@@ -314,6 +315,7 @@ func c05Run(c *core.Case, o *core.Outcome) {
 			}
 		},
 		OnTriggerReturn: func() {
+			trigRet.Store(int64(e.l.Now()))
 			if trigCtx != nil && trigCtx.Err() == nil {
 				triggerReturnedBeforeCtxDone.Store(true)
 			}
@@ -425,31 +427,31 @@ func c05Run(c *core.Case, o *core.Outcome) {
 			}
 		}
 	}
-	if p.Blocking == "forever" && e.started.Load() > 0 && !setupFailed {
-		// bodies are still held: the run may only have returned through the completion timeout
-		if !timeoutExpired {
-			viol("returned-with-inflight", "Do returned with %d iterations still executing and without reporting that the completion timeout expired", inflightAtReturn)
-			return
+	// Did the run wait for the whole completion timeout? Decided by a timer lower bound, not by the wording of
+	// a message: the wait starts after the trigger returned, so a full wait ends no earlier than that + timeout.
+	waitedFull := trigRet.Load() > 0 && tRet-time.Duration(trigRet.Load()) >= completion
+	lateEnd := ""
+	for _, ev := range e.l.Events() {
+		if ev.Kind == "body.end" && ev.Seq > r.DoReturnSeq {
+			lateEnd = ev.ID
+			break
 		}
-		if cc := time.Duration(cancelCall.Load()); cc > 0 && tRet-cc < completion {
-			viol("timeout-early", "Do returned %v after triggering was stopped although iterations were in flight and the completion timeout is %v", tRet-cc, completion)
+	}
+	if (inflightAtReturn != 0 || lateEnd != "") && !setupFailed {
+		if !waitedFull {
+			viol("returned-with-inflight", "Do returned %v after triggering stopped with %d iterations still executing (iteration %q finished later); the completion timeout is %v, so it cannot have expired", tRet-time.Duration(trigRet.Load()), inflightAtReturn, lateEnd, completion)
 			return
 		}
 		o.AddObs("completion_timeouts_observed", 1)
 		o.AddObs("stopped_with_inflight", 1)
-	} else if timeoutExpired && p.Blocking == "none" && p.Ending == "cancel-trigger-start" {
-		viol("timeout-with-nothing-in-flight", "the run sat through its completion timeout (3 s) although no iteration was executing (%d started, all finished): a worker of the run never finished", e.started.Load())
-		return
-	} else if !timeoutExpired {
-		if inflightAtReturn != 0 {
-			viol("returned-with-inflight", "Do returned without the completion timeout expiring while %d iterations were still executing", inflightAtReturn)
+	} else {
+		if p.Blocking == "forever" && e.started.Load() > 0 && !setupFailed {
+			viol("harness-forever", "bodies are held by the harness but none was in flight at return")
 			return
 		}
-		for _, ev := range e.l.Events() {
-			if ev.Kind == "body.end" && ev.Seq > r.DoReturnSeq {
-				viol("returned-with-inflight", "iteration %s finished after Do returned although the completion timeout did not expire", ev.ID)
-				return
-			}
+		if timeoutExpired && p.Blocking == "none" && p.Ending == "cancel-trigger-start" {
+			viol("timeout-with-nothing-in-flight", "the run sat through its completion timeout (3 s) although no iteration was executing (%d started, all finished): a worker of the run never finished", e.started.Load())
+			return
 		}
 		if p.Blocking == "gated" && e.started.Load() > 0 {
 			o.AddObs("stopped_with_inflight", 1)
